@@ -225,9 +225,16 @@ func (v *VStruct) validate(structName string, value reflect.Value, isValidGather
 	return v
 }
 
+// structTypeCacheKey 缓存 key, 缓存的 validNames 是按 targetTag 解析的, 所以 key 需要包含 targetTag
+type structTypeCacheKey struct {
+	ty        reflect.Type
+	targetTag string
+}
+
 // getCacheStructType 获取缓存中的 reflect.Type
 func (v *VStruct) getCacheStructType(ty reflect.Type) structType {
-	if obj, ok := cacheStructType.Load(ty); ok {
+	cacheKey := structTypeCacheKey{ty: ty, targetTag: v.targetTag}
+	if obj, ok := cacheStructType.Load(cacheKey); ok {
 		return obj.(structType)
 	}
 
@@ -247,7 +254,7 @@ func (v *VStruct) getCacheStructType(ty reflect.Type) structType {
 		}
 		obj.fieldInfos[fieldNum] = info
 	}
-	cacheStructType.Store(ty, obj)
+	cacheStructType.Store(cacheKey, obj)
 	return obj
 }
 
